@@ -229,6 +229,12 @@ def check(prog, rep):
     limit_rule(prog, rep)
     window_rounding(prog, rep)
     peewee_clip(prog, rep)
+    # the predicate is evaluated on the stored columns: it selects the intersecting events only if every write stores the
+    # start instant and the END instant (start + the whole duration) in them, at the scale the window edges are bound with
+    from ..rules_codec import codec_peewee, codec_sqlite
+
+    codec_sqlite(prog, rep)
+    codec_peewee(prog, rep)
     rep.floor("C03 obligations", len(rep.obligations), 22)
 
 
@@ -237,6 +243,7 @@ PW = "aw_datastore/storages/peewee.py"
 ME = "aw_datastore/storages/memory.py"
 DS = "aw_datastore/datastore.py"
 VARIANTS = [
+    ("B sqlite end column computed from duration.seconds (drops whole days)", SQ, "        endtime = starttime + (event.duration.total_seconds() * 1000000)\n        datastr = json.dumps(event.data)\n        c.execute(", "        endtime = starttime + event.duration.seconds * 1000000 + event.duration.microseconds\n        datastr = json.dumps(event.data)\n        c.execute(", "CODEC"),
     ("B sqlite ordered by endtime (original defect)", SQ, "ORDER BY starttime DESC, id DESC LIMIT ?", "ORDER BY endtime DESC LIMIT ?", "ORDER"),
     ("B memory count ignores durations (original defect)", ME, "if (not starttime or starttime <= e.timestamp + e.duration)", "if (not starttime or starttime <= e.timestamp)", ["PRED", "PRED-AGREE"]),
     ("B sqlite strict start edge", SQ, "            AND endtime >= ? AND starttime <= ?\n            ORDER BY", "            AND endtime > ? AND starttime <= ?\n            ORDER BY", "PRED"),
